@@ -175,6 +175,8 @@ fn digit_string() -> BoxedStrategy<String> {
         4 => "[0-9]{0,4}",
         2 => "[1-9][0-9]{0,11}",
         2 => "[09]{0,6}",
+        // 13..19 digits: around the 15.95 digits an f64 holds exactly and the u64 range
+        2 => "[1-9][0-9]{12,18}",
         1 => "[0-9]{18,24}",
         1 => "[1-9][0-9]{36,45}",
         1 => Just(String::new()),
